@@ -501,8 +501,8 @@ SPECS["C10"] = Spec(
 def c03_jobs(tier, seed):
     # (middleware, group handlers, route handlers, action, cancel, kinds, deep)
     if tier == "quick":
-        shapes = [(1, 0, 1, 1, 0, "010", 3), (1, 1, 1, 1, 0, "0101", 2), (1, 1, 1, 1, 0, "1010", 2), (0, 0, 2, 0, 1, "01", 2),
-                  (2, 0, 1, 0, 1, "100", 1), (0, 3, 1, 0, 0, "0000", 1)]
+        shapes = [(1, 0, 1, 1, 0, "010", 3), (1, 1, 1, 1, 0, "0101", 2), (1, 1, 1, 1, 0, "1010", 2), (0, 0, 2, 0, 2, "01", 2),
+                  (2, 0, 1, 0, 2, "100", 1), (0, 3, 1, 0, 0, "0000", 1)]
     else:
         shapes = []
         for kinds in ("000", "111", "010", "101"):
@@ -514,6 +514,8 @@ def c03_jobs(tier, seed):
         for kinds in ("00000", "01010", "10101"):
             shapes.append((1, 1, 2, 1, 0, kinds, 2))
         shapes.append((2, 1, 2, 1, 0, "010101", 1))
+        # context replacement (cancel=2) on small chains only: every handler has one more choice
+        shapes += [(0, 0, 2, 0, 2, "01", 2), (2, 0, 1, 0, 2, "100", 1), (1, 0, 1, 1, 2, "010", 1), (1, 1, 1, 0, 2, "001", 1)]
     jobs = []
     for mw, grp, rt, action, cancel, kinds, deep in shapes:
         jobs.append({"pkg_short": "flamego", "body": "VH_C03_chain", "max_paths": 900000,
